@@ -3,12 +3,19 @@
      fn 1: handler   [env; VL events]  -> VL [VN code; VB buffer]   code 0 = ran to the end, 1.. = exception (exn order)
      fn 2: project   [ftree; doc]      -> doc (the projected tree)
      fn 3: escaping  [VB s]            -> VL [VB (escape s); VB (quoteattr s)]
+     fn 4: driver    [world; VB stream; VL [VL [VN len ...] ...]]   (Model/JunosParse.v, instance Model/JunosSax.v)
+                     for each list of read lengths: VL [VL [obs after each read ...]; VL outs; VL fed]
+                     obs   VL [VN kind; VN detail; VB held; VB head; VB buffer; VN #outs; VN length of the current fed entry]
+                           kind 0 SAX, 1 DOM, 2 dead (detail = exception code), 3 outside the model (detail 0 expat rejects,
+                           1 switch from a parser with a root, 2 switch after output), 4 out of fuel
+                     outs  VL [VL [VN via_sax; VB message] ...]     fed  VL [VB ...] (latest first)
+              world  VL [VL [env; VL [VL [] | VL [VL events] ...]; VN dispatch] ...]
    encodings: event  VL [VN 0; VB name; attrs] | VL [VN 1; VB name] | VL [VN 2; VB text]
               attrs  VL [VL [VB k; VB v] ...]
               ftree  VL [VB tag; VL kids]
               env    VL [VN has_listener; VL [VL [VB id; VL [] | VL [ftree]] ...]]
               doc    VL [VN 0; VB text] | VL [VN 1; VB name; attrs; VL kids]            *)
-From NC Require Import Model.Base Model.SaxFilter Spec.Projection.
+From NC Require Import Model.Base Model.SaxFilter Spec.Projection Model.JunosParse Model.JunosSax.
 
 Definition dec_attrs (v : val) : attrs :=
   match v with
@@ -59,14 +66,52 @@ Fixpoint enc_doc (t : xt) : val :=
 Definition exn_code (x : exn) : N :=
   match x with ESwitch => 1 | EOperation => 2 | EKey => 3 | EIndex => 4 | EAttr => 5 | EValue => 8 end.
 
+Definition dec_script (v : val) : list (option (list event)) :=
+  match v with
+  | VL l => map (fun x => match x with VL [VL evs] => Some (flat_map dec_event evs) | _ => None end) l
+  | _ => []
+  end.
+
+Definition dec_world (v : val) : world :=
+  match v with
+  | VL l => flat_map (fun p => match p with VL [e; scr; VN d] => [mkpiece (dec_env e) (dec_script scr) d] | _ => [] end) l
+  | _ => []
+  end.
+
+Definition dec_lens (v : val) : list nat :=
+  match v with VL l => flat_map (fun x => match x with VN k => [N.to_nat k] | _ => [] end) l | _ => [] end.
+
+Definition enc_obs (s : st world xstate) : val :=
+  let no := VN (N.of_nat (length (outs s))) in
+  let nf := VN (N.of_nat (length (match fed s with f :: _ => f | [] => [] end))) in
+  match stat s with
+  | Run (Sax held head _ sbuf) => VL [VN 0; VN 0; VB held; VB head; VB sbuf; no; nf]
+  | Run (Dom dbuf) => VL [VN 1; VN 0; VB []; VB []; VB dbuf; no; nf]
+  | Dead e => VL [VN 2; VN e; VB []; VB []; VB []; no; nf]
+  | Stuck r => VL [VN 3; VN (match r with WExpat => 0 | WSwitchRooted => 1 | WSwitchOutput => 2 end); VB []; VB []; VB []; no; nf]
+  | Fuel => VL [VN 4; VN 0; VB []; VB []; VB []; no; nf]
+  end.
+
+Fixpoint run_obs (s : st world xstate) (reads : list bytes) : list val * st world xstate :=
+  match reads with
+  | [] => ([], s)
+  | r :: rs => let s' := sx_parse s r in let (l, sf) := run_obs s' rs in (enc_obs s' :: l, sf)
+  end.
+
+Definition run_driver (w : world) (stream : bytes) (lens : list nat) : val :=
+  let (l, sf) := run_obs (sx_init w) (segments stream lens) in
+  VL [VL l; VL (map (fun o => VL [vbool (fst o); VB (snd o)]) (outs sf)); VL (map VB (fed sf))].
+
 Definition run (v : val) : val :=
   match v with
   | VL [VN 1; e; VL evs] =>
-      match runb (dec_env e) init (flat_map dec_event evs) with
+      match runb (dec_env e) SaxFilter.init (flat_map dec_event evs) with
       | (b, Fin _) => VL [VN 0; VB b]
       | (b, Raised x) => VL [VN (exn_code x); VB b]
       end
   | VL [VN 2; f; d] => enc_doc (project (dec_ftree f) (dec_doc d))
   | VL [VN 3; VB s] => VL [VB (escape s); VB (quoteattr s)]
+  | VL [VN 4; w; VB stream; VL cutsets] =>
+      let wd := dec_world w in VL (map (fun c => run_driver wd stream (dec_lens c)) cutsets)
   | _ => verr 1
   end.
